@@ -444,6 +444,19 @@ func (g *swGen) query(odd bool) (string, bool) {
 				keys = append(keys, g.pick(swTagKeys))
 			}
 		}
+		if g.rng.Intn(5) == 0 {
+			// several distinct tag keys with one of them listed twice
+			keys = keys[:0]
+			perm := g.rng.Perm(len(swTagKeys))
+			n := 3
+			if len(perm) < n {
+				n = len(perm)
+			}
+			for _, i := range perm[:n] {
+				keys = append(keys, swTagKeys[i])
+			}
+			keys = append(keys, keys[g.rng.Intn(len(keys))])
+		}
 		sb.WriteString(" group by " + strings.Join(keys, ","))
 		if g.rng.Intn(6) == 0 {
 			sb.WriteString(" fill(" + g.pick([]string{"previous", "0", "1.5"}) + ")")
